@@ -39,3 +39,6 @@ func VerifSimTaskLimits() (timeslotWait, executionWait, defaultDelay time.Durati
 
 // VerifSimTaskExecuting reads a task's executing flag without locking.
 func VerifSimTaskExecuting(t *Task) bool { return t.executing }
+
+// VerifSimMarkStopped makes TriggerEvent / NewTask on m no-ops (its stop flag is set).
+func VerifSimMarkStopped(m *Module) { m.stopFlag.Set() }
